@@ -22,8 +22,20 @@ func ZzC10Digest() {
 	www := GenerateWWWAuthenticate([]VerifyMethod{method}, realm, nonce)
 	se := &Sender{WWWAuth: www, User: user, Pass: pass}
 	zzAssert(se.Initialize() == nil, "sender initialises on the server's own challenge")
+	// request URLs: with a path, without any path (only authority), without a path
+	// but with a query, with a query and a trailing slash
+	urlv := zzConcretize(zzIntIn("url", zzParam("URLLO", 0), zzParam("NURL", 4)-1))
 	mk := func(m base.Method) *base.Request {
-		return &base.Request{Method: m, URL: &base.URL{Scheme: "rtsp", Host: "h", Path: "/p"}}
+		u := &base.URL{Scheme: "rtsp", Host: "h", Path: "/p"}
+		switch urlv {
+		case 1:
+			u = &base.URL{Scheme: "rtsp", Host: "h:8554"}
+		case 2:
+			u = &base.URL{Scheme: "rtsp", Host: "h", RawQuery: "k=v"}
+		case 3:
+			u = &base.URL{Scheme: "rtsp", Host: "h", Path: "/p/", RawQuery: "k=v/"}
+		}
+		return &base.Request{Method: m, URL: u}
 	}
 	req := mk(base.Describe)
 	se.AddAuthorization(req)
